@@ -81,7 +81,7 @@ Qed.
 Example chan_ok_examples :
   let row := ChanRow "client.DefaultAddrProc.Process" "send" "client.DefaultAddrProc.clientIPs"
                [("client.DefaultAddrProc.clientIPsMu", W); ("dnsforward.Server.serverLock", R)]
-               "internal/client/addrproc.go:231" "dns:(*dnsforward.Server).handleDNSRequest" in
+               "internal/client/addrproc.go:231" "dns:dnsforward.Server.handleDNSRequest" in
   chan_ok [row] [] = false /\
   chan_ok [row] [("filtering.DNSFilter.Close@filtering.DNSFilter.done", "one send into a buffer of 1")] = false /\
   chan_ok [row] [("client.DefaultAddrProc.Process@client.DefaultAddrProc.clientIPs", "a reason")] = true /\
